@@ -7,7 +7,7 @@
    integrand, every tolerance, every schedule.  [repaired = false] is the code
    as it stands, [repaired = true] the code after
    fixes/F1_integrator_priority_split.patch. *)
-From AV Require Import Base.Prelude Model.Integrator Proofs.IntegratorProofs.
+From AV Require Import Base.Prelude Model.Integrator Proofs.IntegratorProofs Proofs.IntegratorPartition.
 
 Section C07.
   Variable X : Type.                                (* abscissae *)
@@ -61,24 +61,36 @@ Section C07.
     eapply cover_is_partition; eauto. apply TW_run, TW_init.
   Qed.
 
-  (* C07_partition, proved part: in every reachable state, if the executable
-     certificate [partition_cert] accepts approximating_intervals then that set
-     is the leaf set of a cover of the first interval, hence a contiguous
-     partition of [lo, hi].  The certificate is evaluated inside Coq after every
-     operation of every correspondence case (Run/IntegratorRun.v: [cert_ok]),
-     together with "once non-empty, never empty again".
+  (* C07_partition: in every reachable state (both variants of the code, every
+     history, every oracle answer) approximating_intervals is empty or the leaf
+     set of a cover of the first interval; with every interval of the arena
+     non-degenerate ([strict], evaluated on every correspondence case) the cover,
+     read from left to right, is a chain from lo to hi: contiguous, no gap, no
+     overlap, left ends strictly increasing.  igral / err are sums over that set
+     by definition of the properties.  (Loop invariant of the done_leaves
+     propagation: Proofs/IntegratorPartition.v, [loop_ok].) *)
+  Theorem C07_partition : forall (lt : X -> X -> Prop),
+    (forall x y z, lt x y -> lt y z -> lt x z) ->
+    forall repaired lo hi maxiv (h : list (op X)),
+    let s := run eqb points repaired dflt (init eqb points repaired dflt lo hi maxiv) h in
+    strict dflt lt s ->
+    exists Sl, approximating_intervals dflt s = Some Sl /\
+      (Sl = [] \/
+       exists L, Cover dflt s 0 L /\ (forall k, In k Sl <-> In k L) /\ L <> [] /\
+                 chain lt lo (map (ab dflt s) L) hi /\
+                 Sorted.StronglySorted lt (map fst (map (ab dflt s) L))).
+  Proof. intros lt Htr repaired. apply partition_full; auto. Qed.
 
-     Full statement, NOT proved (the missing step is the loop invariant of the
-     done_leaves propagation in complete_process):
+  (* once the first rule is complete (the estimate is non-empty) it stays non-empty *)
+  Theorem C07_partition_stays : forall repaired lo hi maxiv (h1 h2 : list (op X)),
+    let s1 := run eqb points repaired dflt (init eqb points repaired dflt lo hi maxiv) h1 in
+    (exists k Sl, approximating_intervals dflt s1 = Some (k :: Sl)) ->
+    exists k Sl, approximating_intervals dflt (run eqb points repaired dflt s1 h2) = Some (k :: Sl).
+  Proof. intros repaired lo hi maxiv h1 h2. exact (@estimate_stays X eqb points repaired dflt eqb_spec lo hi maxiv h1 h2). Qed.
 
-       Theorem C07_partition : forall lt repaired lo hi maxiv h,
-         let s := run ... (init ... lo hi maxiv) h in
-         halted s = false -> strict dflt lt s ->
-         exists Sl, approximating_intervals dflt s = Some Sl /\
-           (Sl = [] \/ partition_cert dflt s Sl = true) /\
-           (forall h', Sl <> [] -> halted (run ... s h') = false ->
-              approximating_intervals dflt (run ... s h') <> Some []).          *)
-  Theorem C07_partition_partial : forall (lt : X -> X -> Prop),
+  (* soundness of the executable certificate that Run/IntegratorRun.v evaluates
+     after every operation of every correspondence case *)
+  Theorem C07_partition_certificate_sound : forall (lt : X -> X -> Prop),
     (forall x y z, lt x y -> lt y z -> lt x z) ->
     forall repaired lo hi maxiv (h : list (op X)) Sl,
     let s := run eqb points repaired dflt (init eqb points repaired dflt lo hi maxiv) h in
@@ -167,5 +179,7 @@ Print Assumptions C07_rejects_foreign.
 Print Assumptions C07_rejects_unmapped.
 Print Assumptions C07_no_internal_error.
 Print Assumptions C07_cover_is_partition.
-Print Assumptions C07_partition_partial.
+Print Assumptions C07_partition.
+Print Assumptions C07_partition_stays.
+Print Assumptions C07_partition_certificate_sound.
 Print Assumptions C07_no_internal_error_refuted_unfixed.
